@@ -223,7 +223,7 @@ structure CertOk (img : Image) (C : CertData) : Prop where
   mainLe : C.mainLo ≤ img.code.size
   /-- no routines and the main code starts at 0, or the image starts with `JUMP main` -/
   prologue : (img.routines = [] ∧ C.mainLo = 0) ∨
-    (img.code[0]? = some (.jump .always C.mainLo) ∧ 1 ≤ C.mainLo)
+    (img.routines ≠ [] ∧ img.code[0]? = some (.jump .always C.mainLo) ∧ 1 ≤ C.mainLo)
   /-- a name in the routine table is the entry of a routine segment -/
   user : ∀ name addr, img.routine? name = some addr →
     ∃ g ∈ C.segs, g.inRoutine = true ∧ g.lo = addr
@@ -330,7 +330,7 @@ theorem cert_ok_cons {img : Image} (hr : img.routines ≠ []) (h : wfImage img =
     · intro hc; simp [routineSeg] at hc
     · intro _
       exact ⟨by simp only [routineSeg]; omega, hmem.2.1, hmem.2.2.2.2, by rw [hm]; exact hmem.2.2.2.1⟩
-  refine ⟨?_, ⟨mainSeg img, by simp [certOf], rfl⟩, by simp [certOf, hm, hoff.2], .inr ⟨?_, ?_⟩,
+  refine ⟨?_, ⟨mainSeg img, by simp [certOf], rfl⟩, by simp [certOf, hm, hoff.2], .inr ⟨hr, ?_, ?_⟩,
     ?_, ?_, ?_⟩
   · intro g hg
     simp only [certOf, List.mem_cons, List.mem_map] at hg
